@@ -19,7 +19,7 @@ REPR_TEXTS = ("it's", 'say "hi"', "back\\slash", "new\nline", "tab\t", "Ã©", "ï¼
 
 
 def universe(tier):
-    specs = list(C.layouts(3, 2)) + list(C.layouts(2, 2, P_FALSE, min_runs=1))
+    specs = list(C.layouts(3, 2)) + list(C.layouts(2, 2, P_FALSE, min_runs=1)) + C.exotic_specs()
     if tier == "thorough":
         specs += list(C.layouts(4, 1, C.P3, min_runs=4)) + list(C.layouts(3, 2, P_FALSE, min_runs=3))
     return specs
